@@ -207,6 +207,11 @@ func fetchExec(c *Ctx, op string) {
 	f := strings.Fields(op)
 	whKind, mode, mut := f[2], f[3], f[4]
 	ufStr := losslessUnpackStr
+	warm := false
+	if strings.HasSuffix(mode, "+warm") { // the fileset cache already holds the (good) ware when the stored bytes are altered
+		mode = strings.TrimSuffix(mode, "+warm")
+		warm = true
+	}
 	if strings.HasSuffix(mode, "+alt") { // an altering unpack filter: the comparison must still be on the prefilter hash
 		mode = strings.TrimSuffix(mode, "+alt")
 		ufStr = "uid=7,gid=8,mtime=@1234,sticky=follow,setid=follow,dev=follow"
@@ -240,6 +245,9 @@ func fetchExec(c *Ctx, op string) {
 	other, _ := os.ReadFile(storedWarePath("file", otherDir, oid))
 	warePath := storedWarePath(whKind, whDir, id)
 	stored, _ := os.ReadFile(warePath)
+	if warm {
+		tartrans.Unpack(ctx, id, "-", api.MustParseFilesetUnpackFilter(losslessUnpackStr), rio.Placement_None, []api.WarehouseLocation{whAddr(whKind, whDir)}, rio.Monitor{})
+	}
 	altered := alterWare(c, stored, mut, other)
 	os.WriteFile(warePath, altered, 0644)
 	head, fin, toks := decodeStored(altered)
@@ -252,7 +260,11 @@ func fetchExec(c *Ctx, op string) {
 	})
 	res := resTok(id3, err3, pan3)
 	modelOp := fmt.Sprintf("fetch tar %s %s %d %d %s %s %s", id.Hash, filterInts(uf), os.Getuid(), os.Getgid(), head, fin, toks)
-	c.EmitR(op, modelOp, res)
+	if warm {
+		c.EmitR(op, "skip", "skip")
+	} else {
+		c.EmitR(op, modelOp, res)
+	}
 	shelf := filepath.Join(cache, "tar", "fileset", id.Hash[0:3], id.Hash[3:6], id.Hash)
 	_, shelfErr := os.Lstat(shelf)
 	if sh, _ := filepath.Glob(filepath.Join(cache, "tar", "fileset", "*", "*", "*")); len(sh) > 0 {
@@ -261,6 +273,8 @@ func fetchExec(c *Ctx, op string) {
 	switch {
 	case pan3 != "":
 		c.PropFail("fetch-panic", "unpack of an altered ware panicked: "+pan3, op)
+	case warm:
+		// a cache hit: the shelf holds the verified fileset, the warehouse is not read at all
 	case preserving:
 		if (ufStr == losslessUnpackStr && res != "ok "+id.Hash) || !strings.HasPrefix(res, "ok ") {
 			c.PropFail("fetch-refused-valid", fmt.Sprintf("a ware altered only in encoding (%s) was not accepted: %s", mut, res), op)
@@ -455,6 +469,8 @@ func fetchEngine(c *Ctx) {
 			mode := modes[c.Intn(4)]
 			if c.Chance(1, 3) {
 				mode += "+alt"
+			} else if c.Chance(1, 3) || (k == 0 && (m == "substitute" || m == "trunc" || m == "flip")) {
+				mode += "+warm"
 			}
 			op := fmt.Sprintf("fetch tar %s %s %s %s", []string{"ca", "file"}[c.Intn(2)], mode, mut, filesetTok(fsx))
 			fetchExec(c, op)
